@@ -52,6 +52,12 @@
 // requester must get packet.Join, in port order, of dropped/echo for the torn-down branch and the
 // REAL answers of the live branches (class unaffected otherwise).
 //
+// Join (join.go, oracle only): a real node.ManyToOneNode with 2–3 in-ports fed by separate sources, out
+// and error port to their own sinks; requests in flight on several inputs; ONE upstream out-port / one
+// in-port / one in-reader of the join, the join's out-port, the downstream in-port, the process or the
+// node is torn down at every prefix.  A request whose path is torn down gets the dropped error, the
+// requests of the OTHER inputs still get their real answers (class unaffected otherwise).
+//
 // The whole enumeration runs in a child process of the harness binary: a panic inside a node
 // goroutine kills the process and is reported with the scenario that was running.
 package c03
@@ -2149,7 +2155,7 @@ func Run(c *lib.Ctx) {
 
 	// 1. corpus: hand-written crash points (witnesses of the fixed defect)
 	for i, f := range c.CorpusFiles() {
-		if isFanCorpus(f) || isWinCorpus(f) || isFanOutCorpus(f) {
+		if isFanCorpus(f) || isWinCorpus(f) || isFanOutCorpus(f) || isJoinCorpus(f) {
 			continue // run by runFanIn / runWindows
 		}
 		cc, e := parseCorpus(f, i+1)
@@ -2200,6 +2206,19 @@ func Run(c *lib.Ctx) {
 	// 3c. fan-out: a real OneToManyNode, one branch torn down (fanout.go; oracle only)
 	runFanOuts(c, rng, func(class, what, replay string) {
 		unknownFails++
+		fails = append(fails, lib.OracleFail{Class: class, What: what, Replay: replay})
+	}, func(line string) { fmt.Fprintln(prog, line) }, func() bool { return unknownFails >= 6 })
+
+	// 3d. join: a real ManyToOneNode, one input / the output / everything torn down (join.go; oracle only)
+	runJoins(c, rng, func(class, what, replay string) {
+		if isKnown(class) {
+			knownSeen[class]++
+			if knownSeen[class] > 2 {
+				return
+			}
+		} else {
+			unknownFails++
+		}
 		fails = append(fails, lib.OracleFail{Class: class, What: what, Replay: replay})
 	}, func(line string) { fmt.Fprintln(prog, line) }, func() bool { return unknownFails >= 6 })
 
